@@ -40,7 +40,7 @@ def run(tier, seed):
         v.sample(dict(grid=rec['grid'], kind=rec['kind'], union=rec['union'], sel=rec['sel'],
                       slices=rec['slices'], names=rec['names']))
     if v.counters.get('with_ties', 0) == 0 or v.counters.get('nontrivial', 0) == 0:
-        raise MachineryError('vacuous run: no configuration with ties / non-trivial selection')
+        v.vacuous('vacuous run: no configuration with ties / non-trivial selection')
     cov = dict(
         states=sum(r['states'] for r in out['runs']), transitions=sum(r['transitions'] for r in out['runs']),
         traces_validated_against_impl=v.counters.get('cases', 0),
